@@ -45,7 +45,15 @@ type linScenario struct {
 
 func (ls *linScenario) scenario() *Scenario {
 	ls.seqMemo = map[string]string{}
-	return &Scenario{Name: ls.name, Body: ls.body, Check: ls.check, TimerAlts: ls.timerAlts}
+	mo := false
+	for _, t := range ls.threads {
+		for _, c := range t {
+			if len(c) >= 2 && strings.EqualFold(c[0], "CLIENT") && (strings.EqualFold(c[1], "KILL") || strings.EqualFold(c[1], "LIST")) {
+				mo = true
+			}
+		}
+	}
+	return &Scenario{Name: ls.name, Body: ls.body, Check: ls.check, TimerAlts: ls.timerAlts, MapOrder: mo}
 }
 
 // subst replaces $id<i> by the client id of connection i
